@@ -90,6 +90,23 @@ def contractOf (files : List DFile) (n : Name) : Service :=
 def rootNames (cfg : Cfg) (srv : Server) : List Name :=
   fileNames (srv.files.filter fun f => (f.services.any fun s => decide (wanted cfg srv.listed s.name)))
 
+/-- what one poll over `methodPriority = [a, b]` has to do, given what each version would yield
+    (`ra`, `rb` = conversation, remembered hashes, outcome): see `C05_resolve_priority_spec` -/
+def resolveSpec (st : RState) (a b : Version) (ra rb : Option History × Option Snapshot × Outcome) :
+    RState × Outcome × PollLog :=
+  match ra.2.2 with
+  | .update t => ({ priority := [a, b], last := ra.2.1 }, .update t, [(a, ra.1)])
+  | .unchanged => ({ priority := [a, b], last := ra.2.1 }, .unchanged, [(a, ra.1)])
+  | .error e =>
+    if e.code = codeUnimplemented then
+      match rb.2.2 with
+      | .update t => ({ priority := [b, a], last := rb.2.1 }, .update t, [(a, ra.1), (b, rb.1)])
+      | .unchanged => ({ priority := [b, a], last := rb.2.1 }, .unchanged, [(a, ra.1), (b, rb.1)])
+      | .error e2 =>
+        if e2.code = codeUnimplemented then (st, .error ⟨codeUnimplemented⟩, [(a, ra.1), (b, rb.1)])
+        else (st, .error e2, [(a, ra.1), (b, rb.1)])
+    else (st, .error e, [(a, ra.1)])
+
 /-! ### executable counterparts used by the driver's judgement of one observed conversation -/
 
 def specNames (cfg : Cfg) (raw : List Name) : List Name :=
